@@ -30,7 +30,8 @@ Inductive pyexc :=
 | XZeroDivisionError
 | XRuntimeError
 | XNotImplementedError
-| XOutOfFuel.                           (* a `while` loop ran out of the fuel it was given *)
+| XOutOfFuel                            (* a `while` loop ran out of the fuel it was given *)
+| XDangling.                            (* model only: an object identity with no object behind it *)
 
 Inductive exc (A : Type) := Ok (a : A) | Err (e : pyexc).
 Arguments Ok {A}.
